@@ -507,6 +507,10 @@ package wasp
 //@   requires [C12] !#lastLookupFound ==> #metaDeletes == old(#metaDeletes)
 //@   requires [C12] id == session.id && mountpoint == session.mountPoint
 // C11: the keep-alive deadline replaces the 3 s CONNECT deadline before the connection is served
+// C18: the first read of a new connection is bounded by the connect timeout: a client that connects and stays silent (or sends
+// half a CONNECT) cannot hold a set-up worker for ever
+//@ callsite (*setupWorker).setup -> (*github.com/vx-labs/mqtt-protocol/decoder.Sync).Decode(d *decoder.Sync, r io.Reader)
+//@   requires [C18] #readDeadlineSets > old(#readDeadlineSets)
 //@ callsite (*setupWorker).setup -> (*connectionWorker).serve(ctx2 context.Context, sess *sessions.Session)
 //@   requires [C11] #deadlineSets > old(#deadlineSets) && #lastDeadlineConn == sess.conn
 //@   requires [C12] #metaCreates == old(#metaCreates) + 1 && #lastMetaCreated == sess.id && asptr(#registry[sess.id], *sessions.Session) == sess
